@@ -81,7 +81,7 @@ Fixpoint run_r (r : response) (ops : list op) (obs : list opobs) : bool :=
   | o :: ops', x :: obs' =>
       match o with
       | OpPrepare now =>
-          match r_prepare C D29_VARIANT now r with
+          match r_prepare C D59_VARIANT D29_VARIANT now r with
           | Some r' => state_matches (r_hdrs r') (r_body r') x && run_r r' ops' obs'
           | None => match x, obs' with ObsRaised, [] => true | _, _ => false end
           end
